@@ -1,6 +1,7 @@
 """C01 — bin archive content survives serialize -> parse (layout arithmetic agreement)."""
 from mir import fmt, walk, strip_refs, callee_names, norm
-from binser import (for_loops, root_of, rpo_index, mutations_of, affine, fmt_affine, len_atom, enclosing_loops)
+from binser import (for_loops, root_of, rpo_index, mutations_of, affine, fmt_affine, len_atom, enclosing_loops, deep)
+from flow import guards, dom_guards, control_deps, cond_truth
 from c02 import collected_from
 
 EXPLANATION = ("Writer/reader layout arithmetic of the bin archive image: the origin that string pointer values are "
@@ -161,10 +162,14 @@ def run(facts, rep, ctx):
         rep.violation(R4, rd.name, "label-record", "writer pushes %s, reader interprets %s" % (w["label_push_order"], r["label_read_order"]), "%s:%s" % (rd.file, rd.line))
     if r["classify"] == "gt-data-size":
         rep.ok(R4, {"classification": "value > data size => string"})
+    elif r["classify"] is None:
+        rep.inconc(R4, "reader: the test that separates string entries from internal pointers was not recognised")
     else:
         rep.violation(R4, rd.name, "classification", "pointer entries are classified by %s (specified: string iff value > data size)" % r["classify"], "%s:%s" % (rd.file, rd.line))
     if r["string_seek"] == "value+hdr" and r["label_seek"] == "origin+offset+hdr":
         rep.ok(R4, {"string at": "value + header", "label name at": "origin + offset + header"})
+    elif r["string_seek"] is None or r["label_seek"] is None:
+        rep.inconc(R4, "reader: position of the string / label-name reads not recognised (%s, %s)" % (r["string_seek"], r["label_seek"]))
     else:
         rep.violation(R4, rd.name, "seeks", "string read at %s, label name at %s" % (r["string_seek"], r["label_seek"]), "%s:%s" % (rd.file, rd.line))
 
@@ -389,8 +394,13 @@ def reader_model(facts, rep, R2, rd):
             nm = (callee_names(t)[1] or callee_names(t)[0] or "")
             if nm.endswith("EndianAwareReader>::read_u32"):
                 reads.append((bb, t))
-            if nm.endswith("Seek>::seek"):
-                a = affine(nv.term_of_operand(t["args"][1])[4][0] if nv.term_of_operand(t["args"][1])[0] == "agg" else nv.term_of_operand(t["args"][1]), nv)
+            if nm.endswith("Seek>::seek") or nm.endswith("Cursor::<T>::set_position"):
+                tgt = nv.term_of_operand(t["args"][1])
+                if tgt[0] == "agg":
+                    if tgt[3] != "Start" or not tgt[4]:
+                        continue
+                    tgt = tgt[4][0]
+                a = affine(tgt, nv)
                 if a is None or not a[0]:
                     continue
                 keys = set(a[0].keys())
@@ -399,23 +409,61 @@ def reader_model(facts, rep, R2, rd):
                     if len(keys) == 1 and list(a[0].values()) == [1]:
                         m["string_seek"] = "value+hdr"
                         m["header_consts"].append(("reader string seek addend", a[1]))
+                    else:
+                        m["string_seek"] = fmt_affine(a)
                 if a[1] and which == 2:
                     if set(hdr_fields) <= keys and len(keys) == 4:
                         m["label_seek"] = "origin+offset+hdr"
                         m["header_consts"].append(("reader label-name seek addend", a[1]))
+                    else:
+                        m["label_seek"] = fmt_affine(a)
         if which == 1:
-            # classification: comparison of the cell value with the data size
+            # classification: under which relation between the cell value and the data size is the entry stored
+            # as a string / as an internal pointer (read off the guards of the two stores, whatever the branch order)
+            cd_ = control_deps(nv)
+            D = hdr_fields[0]
+
+            def relation(bb):
+                """'v>d' | 'v<=d' | other relation text | None for the guards of block bb"""
+                out = None
+                for (a_, s_, c) in dom_guards(nv, bb, cd_):
+                    ct = cond_truth(c)
+                    if not ct or ct[0][0] != "bin" or ct[0][1] not in ("Gt", "Ge", "Lt", "Le"):
+                        continue
+                    l_, r_ = norm(ct[0][2]), norm(ct[0][3])
+                    stop_ = tuple(f[1] for f in hdr_fields)
+                    dl, dr = deep(nv, ct[0][2], stop=stop_), deep(nv, ct[0][3], stop=stop_)
+                    # one side is the data size alone, the other the value stored in the cell
+                    def is_d(t_):
+                        return any(x == D for x in walk(t_)) and not any(x in hdr_fields[1:] for x in walk(t_)) and not any(x[0] == "bin" for x in walk(t_))
+                    def is_v(t_):
+                        return any(x[0] == "call" and x[1].endswith("BinArchive::read_u32") for x in walk(t_)) and not any(x[0] == "bin" for x in walk(t_))
+                    l_d = is_d(ct[0][2]) or is_d(dl)
+                    r_d = is_d(ct[0][3]) or is_d(dr)
+                    if l_d == r_d or not (is_v(dr) if l_d else is_v(dl)):
+                        continue
+                    op = ct[0][1]
+                    if l_d:      # d OP v  ->  v OP' d
+                        op = {"Gt": "Lt", "Ge": "Le", "Lt": "Gt", "Le": "Ge"}[op]
+                    if not ct[1]:
+                        op = {"Gt": "Le", "Ge": "Lt", "Lt": "Ge", "Le": "Gt"}[op]
+                    out = "v" + {"Gt": ">", "Ge": ">=", "Lt": "<", "Le": "<="}[op] + "d"
+                return out
+            rel_s = rel_p = None
             for bb in lp["blocks"]:
-                for s in nv.blocks[bb]["stmts"]:
-                    if s["k"] == "assign" and s["rv"]["k"] == "bin" and s["rv"]["op"] in ("Gt", "Ge", "Lt", "Le"):
-                        a = norm(nv.term_of_operand(s["rv"]["a"]))
-                        b = norm(nv.term_of_operand(s["rv"]["b"]))
-                        if any(x == hdr_fields[0] for x in walk(b)) and s["rv"]["op"] == "Gt":
-                            m["classify"] = "gt-data-size"
-                        elif any(x == hdr_fields[0] for x in walk(a)) and s["rv"]["op"] == "Lt":
-                            m["classify"] = "gt-data-size"
-                        elif any(x == hdr_fields[0] for x in walk(a)) or any(x == hdr_fields[0] for x in walk(b)):
-                            m["classify"] = "%s against the data size" % s["rv"]["op"]
+                t = nv.blocks[bb]["term"]
+                if t["k"] == "call":
+                    nm = (callee_names(t)[1] or "")
+                    if nm.endswith("BinArchive::write_string"):
+                        rel_s = relation(bb)
+                    elif nm.endswith("BinArchive::write_pointer"):
+                        rel_p = relation(bb)
+            if rel_s == "v>d" and rel_p in ("v<=d", None):
+                m["classify"] = "gt-data-size"
+            elif rel_s is None:
+                m["classify"] = None
+            else:
+                m["classify"] = "string when %s, pointer when %s (v = cell value, d = data size)" % (rel_s, rel_p)
         if which == 2:
             # roles of the two reads: which one reaches write_label's address, which one the seek
             roles = []
